@@ -197,7 +197,7 @@ func (s *state) runSite(fn *ssa.Function, site string, pos token.Pos, rs []Val) 
 				s.pc = append(s.pc, goal)
 			case "use":
 				for _, x := range c.exprs {
-					s.pc = append(s.pc, e.useInstance(x))
+					s.useHint(e, x, pos, funcKey(fn)+":"+strings.ReplaceAll(site, " ", "_"))
 				}
 			case "ghost":
 				s.ghostAssign(e, c.label, c.e, pos)
@@ -278,4 +278,28 @@ func (e *env) ghostOf(x ast.Expr) *ghostDecl {
 		}
 	}
 	return nil
+}
+
+// useHint: `use L(args)` assumes an axiom/lemma instance; `use <bool expr>`
+// for anything else is a proof step: asserted (obligation) and then assumed.
+func (s *state) useHint(e *env, x *sexpr, pos token.Pos, site string) {
+	if call, ok := x.e.(*ast.CallExpr); ok && x.op == "" {
+		if sf := s.u.eng.findSpec(e.pkg, exprStr(call.Fun)); sf != nil && (sf.kind == "axiom" || sf.kind == "lemma") {
+			s.pc = append(s.pc, e.useInstance(x))
+			return
+		}
+		// old(Axiom(args)): the instance is taken over the entry state
+		if id, ok := call.Fun.(*ast.Ident); ok && id.Name == "old" && len(call.Args) == 1 && e.old != nil {
+			if inner, ok := call.Args[0].(*ast.CallExpr); ok {
+				if sf := s.u.eng.findSpec(e.pkg, exprStr(inner.Fun)); sf != nil && (sf.kind == "axiom" || sf.kind == "lemma") {
+					oe := e.with(e.old.scratch())
+					s.pc = append(s.pc, oe.useInstance(&sexpr{e: inner, tab: x.tab, src: x.src}))
+					return
+				}
+			}
+		}
+	}
+	goal := e.evalBool(x)
+	s.oblige("hint", "", x.src, goal, pos, site, false)
+	s.pc = append(s.pc, goal)
 }
